@@ -388,7 +388,9 @@ def run(ctx):
                             if any(x[0] == "arg" and x[1] == p_ for x in spr.operand(op_)):
                                 handed.setdefault(sp.def_, set()).add(fname)
     reps = [b for b in F.all_bodies(MR) if b.kind == "Closure" and any(b.path.startswith(sp.path) for sp in spawners) and
-            (any(c.name == "readout" for c in b.calls()) or any(c.name in ("call", "call_mut", "call_once") and "ops::function" in c.def_ for c in b.calls()))
+            (any(c.name == "readout" for c in b.calls()) or any(c.name in ("call", "call_mut", "call_once") and "ops::function" in c.def_ for c in b.calls()) or
+             any(hb.crate == MR and hb.kind in ("Fn", "AssocFn") and any(x.name == "readout" for u in [hb] + list(F.closures_of(hb)) for x in u.calls())
+                 for c in b.calls() for hb in local_callee_bodies(F, c)))
             and any(c.name in ("select", "cancelled") for c in b.calls())]
     ctx.floor("R20.5", "reporter task bodies", len(reps), 1)
     for b in reps:
@@ -405,6 +407,15 @@ def run(ctx):
         pubs = handed.get(sp_def[0], set()) if sp_def else set()
         inv = [c for c in b.calls() if c.name in ("call", "call_mut", "call_once") and "ops::function" in c.def_ and c.args and
                any(x[0] == "arg" and x[1] == 1 and any(f_ in pubs for f_ in x[2]) for x in pr.operand(c.args[0]))]
+        # ... or a private (async) function of the crate that is such a publish step: `publish(&recorder, &destination).await`
+        def _is_publish_fn(hb):
+            units = [hb] + list(F.closures_of(hb))
+            return hb.crate == MR and hb.kind in ("Fn", "AssocFn") and any(
+                len([c_ for c_ in u.calls() if c_.name == "readout"]) == 1 and
+                any((c_.is_trait_method("EntrySink", "append") or c_.name == "append") and len(c_.args) > 1 and
+                    any(x[0] == "call" and (u.term(x[1]).get("callee") or {}).get("name") == "readout" for x in Prov(u).operand(c_.args[1])) for c_ in u.calls())
+                for u in units)
+        inv += [c for c in b.calls() if c not in inv and any(_is_publish_fn(hb) for hb in local_callee_bodies(F, c))]
         ctx.check(len(aps) + len(inv) == 2 and len(ros) == len(aps) and used == {r.bb for r in ros}, "R20.5", fnkey(b) + "#no-readout-discarded", loc(b),
                   "readout()/append sites: %d/%d (+%d calls of a handed publish step); a readout whose result is not appended loses the swapped counters (and one on shutdown is required)" % (len(ros), len(aps), len(inv)))
     # ------------------------------------------------------------------ R20.8 nothing can come between taking a readout and appending it
